@@ -1,0 +1,13 @@
+//go:build verif
+
+package hls
+
+import "github.com/q191201771/naza/pkg/filesystemlayer"
+
+// VerifSetFileSystemLayer installs the file-system layer every hls file
+// operation goes through (verification harness only; returns the previous one).
+func VerifSetFileSystemLayer(l filesystemlayer.IFileSystemLayer) filesystemlayer.IFileSystemLayer {
+	old := fslCtx
+	fslCtx = l
+	return old
+}
